@@ -70,13 +70,9 @@ func (fs TarWriter) CreateSymlink(n NodeSymlink) error {
 	return fs.w.WriteHeader(hdr)
 }
 
-// We're not using os.Filemode here but the low-level system modes where the mode bits
-// are in the lower half. Can't use os.ModeCharDevice here.
-const modeChar = 0x4000
-
 func (fs TarWriter) CreateDevice(n NodeDevice) error {
 	var typ byte = gnutar.TypeBlock
-	if n.Mode&modeChar != 0 {
+	if n.Mode&os.ModeCharDevice != 0 {
 		typ = gnutar.TypeChar
 	}
 	hdr := &gnutar.Header{
